@@ -229,7 +229,8 @@ partial def loop (inp out : IO.FS.Stream) (st : St) : IO St := do
     match st.ehist with
     | some eh =>
       let opLine := "_".intercalate rest
-      if eh.kind == "market" then
+      if eh.kind == "sim" then loop inp out st
+      else if eh.kind == "market" then
         match parseMOp rest with
         | some op => loop inp out { st with ehist := some { eh with pendingM := some (op, opLine) } }
         | none => emit out s!"BAD op {rest}"; loop inp out st
